@@ -223,6 +223,9 @@ int EvalExpression::run(AsmContext *asm_context, Var &answer, bool is_paren)
     if (execute_stack(var_stack, oper_stack) != 0) { return  -1; }
   }
 
+  // An operator that never got its right hand operand, as in "1 +".
+  if (oper_stack.is_empty() == false) { return -1; }
+
   answer = var_stack.pop();
 
   return 0;
